@@ -6,21 +6,21 @@ package main
 func init() {
 	property(&Property{
 		ID:          "C01",
-		Rules:       []string{"STOP-SET", "LITERAL-COMPARE", "OFFSET-BASE", "KEY-AGREE", "PATTERN-VERB", "VERB-KEY", "LEAF-EXHAUSTED", "VARS-ONLY", "PATH-NORMALISE", "PATH-SOURCE", "SEP-CHECK", "KIND-VALUE-AGREE", "KIND-EXHAUSTIVE", "MATCH-SOURCE", "LEX-EOF-ONLY", "POOL-UAP"},
+		Rules:       []string{"STOP-SET", "LITERAL-COMPARE", "OFFSET-BASE", "KEY-AGREE", "PATTERN-VERB", "VERB-KEY", "LEAF-EXHAUSTED", "VARS-ONLY", "PATH-NORMALISE", "PATH-SOURCE", "SEP-CHECK", "KIND-VALUE-AGREE", "KIND-EXHAUSTIVE", "MATCH-SOURCE", "LEX-EOF-ONLY", "POOL-UAP", "STORED-SLICE-REUSE"},
 		Decides:     "Decides the comparisons and tables every sound matcher must contain: literal edges are followed by the same key they were created with; a variable pattern's literal arm rejects on kind or text mismatch; '*' stops at '/' and ':' and '**' at ':' only; each HttpRule pattern case maps to the HTTP method of the same name and the leaf lookup is keyed by the request's verb; a method is returned only when nothing but the end marker is left; captured text is bound only to the fields the template names; capture lengths use the right base. Also: path-bound integer/float/enum text is converted with the field's own kind and width (the KIND rules). Also: the method returned by the matchers comes from the trie walk of this request (or a memo keyed by both path and verb), never from a value remembered under less. Also: the path lexer closes the token list only at the end of the input (no silent truncation at the token budget). Also: the token list the matcher walks is not memory of a pooled lexer that a deferred Put hands to the next request.",
 		NotDecided:  "that a matching path is matched only by covering templates in general (lexer character classes, ':' handling, capture text equality, numeric conversion results, trailing-slash normalisation) - i.e. the behavioural statement itself.",
 		Assumptions: commonAssumptions,
 	})
 	property(&Property{
 		ID:          "C02",
-		Rules:       []string{"LITERAL-FIRST", "BACKTRACK", "STOP-SET", "SORTED-VARS", "NO-MAP-ORDER", "OFFSET-BASE", "PATH-CHARSET", "COW-5", "COW-2", "PATH-NORMALISE", "KEY-AGREE"},
+		Rules:       []string{"LITERAL-FIRST", "BACKTRACK", "STOP-SET", "SORTED-VARS", "NO-MAP-ORDER", "OFFSET-BASE", "PATH-CHARSET", "COW-5", "COW-2", "PATH-NORMALISE", "KEY-AGREE", "STORED-SLICE-REUSE"},
 		Decides:     "Decides the structural guarantees of the matcher's shape for every rule set and path: the literal edge is tried before any variable and wins if it succeeds; a failed sub-search never aborts the search (only a conversion failure does); variables are kept sorted by a strict order on a key that depends on the pattern only; nothing on the matching path ranges over a map; capture lengths are computed against the right base. Also: the lexer's path character class contains RFC 3986 pchar (without ':' and '%'); cloning a routing node never drops a field on an early return. Also: every writer loads, clones and publishes the routing snapshot under the writers' lock (a registration built on a stale snapshot erases the rules committed in between). Also: the request path is only slash-normalised before matching (no path.Clean: '.' and '..' are legal segment texts). Also: reader and writer of the literal edges build the key alike (separator + text).",
 		NotDecided:  "that every instantiation of every template matches (value-level: lexer character classes, token cap, '**' stopping at the first ':'); order independence of registration (duplicate detection, delRule).",
 		Assumptions: commonAssumptions,
 	})
 	property(&Property{
 		ID:          "C03",
-		Rules:       []string{"KIND-EXHAUSTIVE", "KIND-VALUE-AGREE", "WKT-TABLE", "BYTES-ALPHABETS", "NAME-RESOLUTION", "FIELDPATH-SINGULAR", "DECODE-THEN-PARAMS", "DESC-ROLE", "DECOMP-AGREE", "B64-BUF", "QUOTE-ESCAPES", "POOL-ESCAPE", "FD-LOCALISER", "QUERY-EVERY-VALUE", "BODY-UNKNOWN-LENGTH"},
+		Rules:       []string{"KIND-EXHAUSTIVE", "KIND-VALUE-AGREE", "WKT-TABLE", "BYTES-ALPHABETS", "NAME-RESOLUTION", "FIELDPATH-SINGULAR", "DECODE-THEN-PARAMS", "DESC-ROLE", "DECOMP-AGREE", "B64-BUF", "QUOTE-ESCAPES", "POOL-ESCAPE", "FD-LOCALISER", "QUERY-EVERY-VALUE", "BODY-UNKNOWN-LENGTH", "GZIP-WHOLE-BODY"},
 		Decides:     "Decides that the per-kind conversion table is complete and type-correct against protoreflect's Kind/Value contract, that well-known types are listed and unmarshalled into their own type, that the bytes arm reaches all four base64 variants, that names resolve by JSON name then proto name, that field paths only walk singular message fields, that body/query/path resolution uses the request descriptor, that decompression and codec selection follow the request headers, and that parameters are applied after the body. Also: a base64 destination is sized by the encoding that decodes into it; URL text becomes a JSON string only through an escaping quoter. Also: the function that maps a stored field descriptor onto the handling backend's message goes by field number or name, never by declaration position; bytes handed to the handler are not left inside a pooled buffer. Also: every value of every query key becomes a parameter or an error (none is skipped). Also: a request of undeclared length (Content-Length -1) has its body decoded.",
 		NotDecided:  "that converted values equal the proto3 JSON reading (null, NaN, whitespace, base64 details), the round-trip law itself, codec behaviour.",
 		Assumptions: commonAssumptions,
@@ -41,7 +41,7 @@ func init() {
 	})
 	property(&Property{
 		ID:          "C06",
-		Rules:       []string{"ENCODER-CLOSE", "CARRY-OVER", "FRAME-AGREE", "READFULL-EOF", "FWD-CLOSESEND", "COMPRESS-FLAG", "READ-FAIL-NONNIL", "CLOSE-ONCE", "JSON-FRAME-TABLE", "WS-DATA-KINDS", "CLEAN-END-EOF-ONLY"},
+		Rules:       []string{"ENCODER-CLOSE", "CARRY-OVER", "FRAME-AGREE", "READFULL-EOF", "FWD-CLOSESEND", "COMPRESS-FLAG", "READ-FAIL-NONNIL", "CLOSE-ONCE", "JSON-FRAME-TABLE", "WS-DATA-KINDS", "CLEAN-END-EOF-ONLY", "READ-DATA-FIRST", "CARRY-COUNTED", "POOL-FOREIGN"},
 		Decides:     "Decides only three structural necessary conditions of 'no lost byte': the gRPC-web-text byte stream is terminated; bytes a stream codec read past the current message are saved on every path and handed to the next read; the gRPC frame writer and reader (and the gRPC-web trailer frame) agree on header length, offsets and byte order. Also: a proxied half-close is sent only after a clean inbound end; a gRPC message is decompressed iff its own flag byte is set; a failed transport read never yields a nil error. Also: the compressing writer is closed once per message (a second Close returns it to its pool twice and two streams share it). Also: the JSON stream codec's framing decisions - where a message ends - follow JSON's lexical structure (JSON-FRAME-TABLE). Also: the WebSocket stream reads text and binary data frames alike; a read error is taken for a clean end only when it is io.EOF itself.",
 		NotDecided:  "and this is most of the property: sequence equality, fragmentation invariance, truncation behaviour, phantom/dropped messages at EOF, WebSocket end-of-stream.",
 		Assumptions: commonAssumptions,
@@ -62,14 +62,14 @@ func init() {
 	})
 	property(&Property{
 		ID:          "C09",
-		Rules:       []string{"PANIC-REACH-SERVE", "COMMAOK-SERVE", "ASSERT-CHECKED", "TABLE-GUARD", "SIGNCONV", "OFFSET-BASE", "FIELDPATH-SINGULAR", "TOKEN-KINDS", "NIL-MAP-WRITE", "STATS-PURE", "SLICE-CAP", "NILABLE-FIELD", "FD-LOCAL", "CODEC-LOOKUP-TOTAL", "NIL-STATE", "B64-BUF", "SUB-LOW", "PICK-CURRENT", "HANDLERS-PRESENCE", "JOIN-EXIT", "LOOP-PROGRESS"},
+		Rules:       []string{"PANIC-REACH-SERVE", "COMMAOK-SERVE", "ASSERT-CHECKED", "TABLE-GUARD", "SIGNCONV", "OFFSET-BASE", "FIELDPATH-SINGULAR", "TOKEN-KINDS", "NIL-MAP-WRITE", "STATS-PURE", "SLICE-CAP", "NILABLE-FIELD", "FD-LOCAL", "CODEC-LOOKUP-TOTAL", "NIL-STATE", "B64-BUF", "SUB-LOW", "PICK-CURRENT", "HANDLERS-PRESENCE", "JOIN-EXIT", "LOOP-PROGRESS", "SCAN-INDEX-GUARDED"},
 		Decides:     "Decides the absence, on every call-graph path from the request entry points, of the enumerated crash constructs: explicit panic, use of a comma-ok result where ok may be false, unjustified single-result type assertions, off-by-one table guards, sign-changing conversions of wire lengths, index-relative-to-wrong-base arithmetic, field paths walking through repeated/map/scalar fields, pattern tokens the matcher panics on, writes through nil maps, stats-only slicing. Also: the state snapshot (nil before the first registration) is only used nil-safely; x[a-b:] needs a >= b; base64 destinations are sized by the decoding encoding. Also: the handler pick indexes a non-empty list (no rand.Intn(0)); readers of the handler table do not take a present-but-empty entry for a registered method. Also: serveGRPC's join of the stream's goroutines cannot wait on a body it has not closed; growcap's fractional loop cannot be entered where its increment is 0.",
 		NotDecided:  "general slice/index arithmetic, nil dereferences beyond the comma-ok class, termination, resource exhaustion, panics inside dependencies beyond the encoded contracts.",
 		Assumptions: commonAssumptions,
 	})
 	property(&Property{
 		ID:          "C10",
-		Rules:       []string{"FWD-MD", "FWD-CLOSESEND", "FWD-PAIR", "FWD-ERR-IDENTITY", "FWD-ERR-PROMPT", "DESC-ROLE", "ROLE-AGREE", "GO-SHARED", "IC-ONCE", "ESCAPE-SET", "TAIL-FLUSH", "FWD-EOF-FILTERED", "MD-GATE-IN"},
+		Rules:       []string{"FWD-MD", "FWD-CLOSESEND", "FWD-PAIR", "FWD-ERR-IDENTITY", "FWD-ERR-PROMPT", "DESC-ROLE", "ROLE-AGREE", "GO-SHARED", "IC-ONCE", "ESCAPE-SET", "TAIL-FLUSH", "FWD-EOF-FILTERED", "MD-GATE-IN", "CALL-FRESH-MESSAGE"},
 		Decides:     "Decides the forwarder's plumbing: the backend call carries the inbound metadata, method name and streaming shape; client half-close is forwarded; each inbound message is forwarded as received into a fresh message of the request type and replies are built from the reply type; backend errors are returned unmodified; the pump goroutine shares nothing unsynchronised and never touches the response side. Also: the stream-error filter sets aside only nil/io.EOF/context.Canceled; grpc-message escapes are % and two hex digits. Also: io.EOF made by a pump loop (the peer finished) is never returned to the front client as an error. Also: the incoming metadata that is forwarded withholds only an enumerated list of protocol keys (no prefix test). Also: io.EOF from any SendMsg on the backend stream is never returned to the front client (the status is RecvMsg's to report; found D43).",
 		NotDecided:  "observational equivalence of transcripts; reflection-based descriptor discovery; response header metadata.",
 		Assumptions: commonAssumptions,
@@ -90,7 +90,7 @@ func init() {
 	})
 	property(&Property{
 		ID:          "C13",
-		Rules:       []string{"POOL-TYPE", "POOL-RESET", "POOL-ESCAPE", "POOL-UAP", "POOL-ONCE", "OPTS-RO", "GO-SHARED", "SENDRECV-DISJOINT", "PER-REQUEST-FRESH", "POOL-FOREIGN", "CLOSE-ONCE", "MD-OWNED", "POOL-SELF-TERMINAL", "JOIN-EXIT"},
+		Rules:       []string{"POOL-TYPE", "POOL-RESET", "POOL-ESCAPE", "POOL-UAP", "POOL-ONCE", "OPTS-RO", "GO-SHARED", "SENDRECV-DISJOINT", "PER-REQUEST-FRESH", "POOL-FOREIGN", "CLOSE-ONCE", "MD-OWNED", "POOL-SELF-TERMINAL", "JOIN-EXIT", "CALL-FRESH-MESSAGE"},
 		Decides:     "Decides the ownership discipline of everything shared between requests: pooled objects are typed, reset before use, never escape into messages/fields/goroutines, are not used after being returned and are returned at most once; options are read-only on serving paths; what a spawned pump shares is read only after its join and it never touches the response side; the send and receive halves of a stream touch disjoint state; stream objects and lexers are per-request allocations. Also: a stream's header/trailer metadata are its own maps, not the handler's. Also: a reader that returns itself to its pool on io.EOF reports that EOF (a hidden EOF makes the caller read a pooled object and pool it twice). Also: serveGRPC joins in-flight stream calls on every way out (deferred Wait); memory of a pooled object is not returned under a deferred Put.",
 		NotDecided:  "absence of races in general (no lockset analysis of stream fields across handler-spawned goroutines), byte-level isolation, user codecs that alias their input.",
 		Assumptions: commonAssumptions,
@@ -104,28 +104,28 @@ func init() {
 	})
 	property(&Property{
 		ID:          "C15",
-		Rules:       []string{"CTX-ANCESTRY", "TIMEOUT-APPLIED", "TIMEOUT-REFUSED", "UNIT-TABLE", "TIMEOUT-DIGITS", "TIMEOUT-CLAMP", "READ-FAIL-NONNIL", "CLEAN-END-EOF-ONLY"},
+		Rules:       []string{"CTX-ANCESTRY", "TIMEOUT-APPLIED", "TIMEOUT-REFUSED", "UNIT-TABLE", "TIMEOUT-DIGITS", "TIMEOUT-CLAMP", "READ-FAIL-NONNIL", "CLEAN-END-EOF-ONLY", "DONE-BEFORE-WRITE"},
 		Decides:     "Decides that the handler's context always descends from the request's context through context-deriving calls only, that a present grpc-timeout is decoded with the spec's unit table and length bounds and installed with context.WithTimeout, and that a malformed one is refused before the handler can run. Also: the decoded timeout is installed on every path to the handler (a zero timeout included); a failed frame read never returns a possibly-nil error. Also: a body cut short (io.ErrUnexpectedEOF) is never presented to the handler as a clean end of stream.",
 		NotDecided:  "promptness; that a handler blocked inside r.Body.Read is released (net/http behaviour); sign/overflow handling of the digits.",
 		Assumptions: commonAssumptions,
 	})
 	property(&Property{
 		ID:          "C16",
-		Rules:       []string{"PANIC-REACH-REG", "COMMAOK-REG", "TOKEN-KINDS", "COW-7", "COW-3", "COW-5", "SLOT-CHECK", "FIELDPATH-SINGULAR", "ADDITIONAL-BINDINGS", "NIL-STATE", "DESC-BY-NAME", "STORED-SLICE-REUSE", "TOKEN-WIDTH", "BACKTRACK", "LITERAL-FIRST"},
+		Rules:       []string{"PANIC-REACH-REG", "COMMAOK-REG", "TOKEN-KINDS", "COW-7", "COW-3", "COW-5", "SLOT-CHECK", "FIELDPATH-SINGULAR", "ADDITIONAL-BINDINGS", "NIL-STATE", "DESC-BY-NAME", "STORED-SLICE-REUSE", "TOKEN-WIDTH", "BACKTRACK", "LITERAL-FIRST", "TOKEN-LITERAL-TEXT"},
 		Decides:     "Decides the 'rejects ... with an error (never a panic) and leaves previously registered routes intact' half: no panic or unchecked comma-ok use is reachable from the registration roots, pattern tokens are validated, a failed registration publishes nothing and works on a private clone, a binding slot is written only after the conflict check, body/response_body selectors must name singular message fields, nested additional bindings are rejected before recursion. Also: registration on an empty Mux never dereferences the nil snapshot; re-registration of the same method from another descriptor instance is recognised by name. Also: a token or key slice kept by the trie (addVariable) is not re-used as an append buffer for the next variable of the template. Also: fixed-text tokens of the template lexer are exactly as wide as their text ('***' is not '**'). Also: the matcher shape rules that make every instance of an accepted template route (BACKTRACK, LITERAL-FIRST).",
 		NotDecided:  "the 'accepts every well-formed template' half (grammar conformance is value-level: e.g. one-letter literals are rejected today).",
 		Assumptions: commonAssumptions,
 	})
 	property(&Property{
 		ID:          "C17",
-		Rules:       []string{"LIMIT-IMPL", "LIMIT-STRICT", "SIGNCONV", "COMMAOK-SERVE", "READFULL-EOF", "SLICE-CAP", "READ-FAIL-NONNIL", "JSON-FRAME-TABLE", "LOOP-PROGRESS"},
+		Rules:       []string{"LIMIT-IMPL", "LIMIT-STRICT", "SIGNCONV", "COMMAOK-SERVE", "READFULL-EOF", "SLICE-CAP", "READ-FAIL-NONNIL", "JSON-FRAME-TABLE", "LOOP-PROGRESS", "SCAN-INDEX-GUARDED", "READ-DATA-FIRST", "CARRY-COUNTED"},
 		Decides:     "Decides the limit-safe half: every in-repo ReadNext compares against its limit before it can return a message, strictly, and in a domain where the decoded length cannot wrap. Also: a failed transport read in RecvMsg returns a certainly non-nil error. Also: the JSON codec's scanner, as a transition table read off its loop body, agrees with JSON's lexical structure on every transition up to brace depth 4 (string start/end, backslash escapes, braces inside strings, message end exactly at the closing brace of depth 0, refusal of a surplus closing brace) and depends on nothing but its state and the current byte. Also: growcap's x += x/4 loop is entered only with x >= 4.",
 		NotDecided:  "invariance under where the reader splits the bytes (refill boundaries, carry-over exactness; the table rule assumes the current byte is buffered), the proto codec's varint handling beyond the limit/width checks, a JSON scanner that consumes more than one byte per iteration (reported undecided).",
 		Assumptions: commonAssumptions,
 	})
 	property(&Property{
 		ID:          "C18",
-		Rules:       []string{"STATS-PAIR", "STATS-ERR", "STATS-ORDER", "STATS-PURE", "NILABLE-FIELD", "IC-ONCE", "IC-PASSTHRU", "ROLE-AGREE", "STATS-PAYLOAD-EACH", "STATS-JOINED"},
+		Rules:       []string{"STATS-PAIR", "STATS-ERR", "STATS-ORDER", "STATS-PURE", "NILABLE-FIELD", "IC-ONCE", "IC-PASSTHRU", "ROLE-AGREE", "STATS-PAYLOAD-EACH", "STATS-JOINED", "STATS-MD-COPY"},
 		Decides:     "Decides the exactly-once and pairing structure: each handler closure invokes the RPC through the configured interceptor exactly once and never directly; the nil-safe wrappers pass arguments and results through unchanged; streaming flags and method names agree with the descriptor; every Begin has exactly one End carrying the handler's error; events are ordered and share TagRPC's context; stats-only code cannot change or crash the RPC. Also: a closure that exists only with a stats handler assigns nothing the serve function reads outside stats-only code; a return whose error is not known non-nil counts as a success for the payload event. Also: every stream method that reports a stats event is joined (WaitGroup) before the serve function emits End. Also: every invocation of the handler in a serve function feeds End.Error (no branch keeps the result to itself). Also: the reply a unary handler closure sends is the interceptor-mediated invocation's own result.",
 		NotDecided:  "one payload event per message (WebSocket and body-less requests emit none), event field values, user-supplied interceptors.",
 		Assumptions: commonAssumptions,
